@@ -670,6 +670,61 @@ func c04WindowRelatives(c *Ctx) {
 	}
 }
 
+// c03SameCodeWalk / c04SameCodeWalk: one goroutine, one secret, format and window, and ONE submitted string (the code
+// of counter / step k) validated while the counter / instant walks from below the window that contains k to above it
+// and back, every position twice (for TOTP at two different seconds of the step). The verdict flips from rejected to
+// accepted and back; each (ok, err) pair must be the one that belongs to the position it is asked at. Whatever is
+// remembered about "this code for this secret" - a verdict, a reason for rejection - must not outlive the position.
+func c03SameCodeWalk(c *Ctx) {
+	rng := c.RNG.Fork(3160)
+	for w := 0; w < c.N(20, 300); w++ {
+		key := rng.Bytes(20)
+		d, a := 6+rng.Intn(5), rng.Intn(3)
+		skew := uint64(rng.Intn(4))
+		k := uint64(100 + rng.Intn(1<<30))
+		code := ref.HOTP(key, k, d, a)
+		var pos []uint64
+		for x := k - skew - 2; x <= k+skew+2; x++ {
+			pos = append(pos, x, x)
+		}
+		for i := len(pos) - 1; i >= 0; i-- {
+			pos = append(pos, pos[i])
+		}
+		for _, ctr := range pos {
+			judgeVHOTP(c, vhotpCase{KeyHex: hexs(key), Secret: ref.Base32EncodeNoPad(key), Counter: ctr, Skew: skew, Digits: uint8(d), Algo: uint8(a), Submitted: hexAll([]string{code}), Notes: []string{"one code, the counter walks across the window that contains it"}})
+			c.R.Count("same_code_walk_calls", 1)
+		}
+	}
+}
+
+func c04SameCodeWalk(c *Ctx) {
+	rng := c.RNG.Fork(4160)
+	for w := 0; w < c.N(20, 300); w++ {
+		key := rng.Bytes(20)
+		d, a := 6+rng.Intn(5), rng.Intn(3)
+		p := gen.Pick(rng, []uint64{0, 30, 30, 60, 2})
+		pp := p
+		if pp == 0 {
+			pp = 30
+		}
+		skew := uint64(rng.Intn(4))
+		k := uint64(100 + rng.Intn(1<<30))
+		code := ref.HOTP(key, k, d, a)
+		var pos []uint64
+		for x := k - skew - 2; x <= k+skew+2; x++ {
+			pos = append(pos, x, x)
+		}
+		for i := len(pos) - 1; i >= 0; i-- {
+			pos = append(pos, pos[i])
+		}
+		for i, step := range pos {
+			off := uint64(i%2) * (pp - 1) // first and last second of the step
+			judgeVTOTP(c, vtotpCase{KeyHex: hexs(key), Secret: ref.Base32EncodeNoPad(key), At: gen.InstantSpec{Unix: int64(step*pp + off)}, Period: p, Skew: skew, Digits: uint8(d), Algo: uint8(a), Submitted: hexAll([]string{code}), Notes: []string{"one code, the instant walks across the window that contains it"}})
+			c.R.Count("same_code_walk_calls", 1)
+		}
+	}
+}
+
 func runC04(c *Ctx) {
 	bt := newBatcher(c, judgeVTOTP, 97)
 	c04Cases(c, bt.add)
@@ -678,6 +733,7 @@ func runC04(c *Ctx) {
 	c04StepWalk(c)
 	c04RelatedSteps(c)
 	c04WindowRelatives(c)
+	c04SameCodeWalk(c)
 
 	// bounded work. (i) functional, affordable skews: a validator that does not refuse answers (true, nil).
 	small := refusedSkewCases(c, []uint64{11, 12, 100, 10000})
@@ -751,6 +807,7 @@ func init() {
 			c03CounterWalk(c)
 			c03RelatedCounters(c)
 			c03WindowRelatives(c)
+			c03SameCodeWalk(c)
 		},
 		Replay: func(c *Ctx, kind string, raw json.RawMessage) error {
 			return replayAs(raw, func(k vhotpCase) { judgeVHOTP(c, k) })
